@@ -275,7 +275,7 @@ with loop (fuel d : nat) (st : state) (lg : list inv) (e sg : nat) {struct fuel}
     | None => Fail lg
     | Some (st1, None) => Done (st1, lg)
     | Some (st1, Some x) =>
-      match exec f (S d) st1 (mkInv e sg (s_recv x) (s_slot x) :: lg) (sc (s_recv x) (s_slot x)) with
+      match exec f (S d) st1 (mkInv e sg (s_recv x) (s_slot x) :: lg) (sc (mkInv e sg (s_recv x) (s_slot x) :: lg) (s_recv x) (s_slot x)) with
       | Done (st2, lg2) => if invalidated st2 e sg then Done (st2, lg2) else loop f d st2 lg2 e sg
       | o => o
       end
@@ -346,7 +346,7 @@ with loop_tr (fuel d : nat) (st : state) (lg : list inv) (tr : list snap) (e sg 
     | None => Fail lg
     | Some (st1, None) => Done (st1, lg, tr)
     | Some (st1, Some x) =>
-      match exec_tr f (S d) st1 (mkInv e sg (s_recv x) (s_slot x) :: lg) (snap_of st1 true e sg :: tr) (sc (s_recv x) (s_slot x)) with
+      match exec_tr f (S d) st1 (mkInv e sg (s_recv x) (s_slot x) :: lg) (snap_of st1 true e sg :: tr) (sc (mkInv e sg (s_recv x) (s_slot x) :: lg) (s_recv x) (s_slot x)) with
       | Done (st2, lg2, tr2) =>
           let tr3 := snap_of st2 false e sg :: tr2 in
           if invalidated st2 e sg then Done (st2, lg2, tr3) else loop_tr f d st2 lg2 tr3 e sg
